@@ -44,7 +44,9 @@ variable {π : Type}
 
 /-- `build_elem`: optional relative coordinates, active range handed in by the caller -/
 def mkPart (rel : Bool) (P lo hi : Int) (b : Fib Int π) : Part π :=
-  ⟨P, if rel then b.map (fun e => (e.1 - P, e.2)) else b, lo, hi⟩
+  ⟨P, if rel then b.map (fun e => (e.1 - P, e.2)) else b,
+   -- since /repo COMMIT:C14-03 the range of a relative partition is relative too
+   if rel then lo - P else lo, if rel then hi - P else hi⟩
 
 /-- `min(inds)` -/
 def minOf : List Nat → Option Nat
